@@ -12,7 +12,7 @@ PID = "C04"
 LEAN_MODULE = "NiVerif.Props.C04"
 NAMESPACE = "Props.C04"
 DRIVER = "drivers/C04.lean"
-GEN_MODULES = ["TimeValueTuple", "TimeDelta", "DateTime", "TimeDeltaFloat"]
+GEN_MODULES = ["TimeValueTuple", "TimeDelta", "DateTime", "TimeDeltaFloat", "Conversion"]
 THEOREMS = [
     "bt_to_dt_floor", "bt_to_dt_overflow_refused", "bt_to_dt_total", "dt_to_bt_floor", "dt_to_bt_never_overflows",
     "bt_to_ht_floor", "bt_to_ht_total", "ht_to_bt_nearest", "ht_to_bt_never_overflows",
@@ -23,7 +23,7 @@ THEOREMS = [
     "btdt_to_dt_floor", "dt_to_btdt_floor", "btdt_to_ht_floor", "ht_to_btdt_nearest", "btdt_ht_btdt",
     "dt_ht_dt_abs", "ht_to_dt_abs_trunc", "ht_to_dt_abs_in_range", "tz_rules",
     "round_error", "round_int", "to_ticks_float_unfold", "float_to_ticks_nearest", "float_to_ticks_exact",
-]
+            "gen_convert_timedelta_error", "gen_convert_same_type", "gen_convert_round_trips"]
 RULE = ("source values of each family from edge lattices (decimal boundaries of a 2^64 fraction ±2, just below whole "
         "seconds, negatives, range edges of datetime/timedelta/hightime) plus seeded random values, through all nine "
         "source->destination pairs for timedeltas and datetimes on the real code (oracle with exact Fractions) and "
